@@ -125,6 +125,19 @@ def entry_points(chk, ex, clsname, which, found=None):
         s.pc += base
         return _glue.call_method(ex, s, sref, method, args)
 
+    # the two bookkeeping accessors read the element they are documented to read
+    for meth, idx in (("n_added", 0), ("n_records", 1)):
+        if st0.objs[sref.oid]["cls"].lookup(meth) is None:
+            continue
+        outs = run(meth, [])
+        arr = st0.objs[sref.oid]["fields"].get("n_added_records")
+        ok = bool(outs)
+        for o, e in outs:
+            org = getattr(o.value, "origin", None) if o.kind == "return" else None
+            good = org is not None and org[0] is arr and ex.concrete(org[1] if not isinstance(org[1], tuple) else org[1][0]) == idx
+            ok = ok and good and not [x for x in e if x[0] in _glue.MUTATING]
+        row(chk, "%s.%s():returns-n_added_records[%d]-and-changes-nothing" % (clsname, meth, idx), ok, None, found)
+
     def single(name, method, args, kernel, expect):
         outs = run(method, args)
         rets = [(o, e) for o, e in outs if o.kind == "return"]
